@@ -165,10 +165,10 @@ func (gq *Schema) buildPossibleTypeMap() {
 //Add Implementations at Runtime..
 func (gq *Schema) AddImplementation() error {
 
-	// Keep track of all implementations by interface name.
-	if gq.implementations == nil {
-		gq.implementations = map[string][]*Object{}
-	}
+	// Keep track of all implementations by interface name. The table is
+	// rebuilt from the whole type map, so start from scratch: appending to
+	// the existing lists registered every earlier implementer once more.
+	gq.implementations = map[string][]*Object{}
 	for _, ttype := range gq.typeMap {
 		if ttype, ok := ttype.(*Object); ok {
 			for _, iface := range ttype.Interfaces() {
@@ -181,6 +181,9 @@ func (gq *Schema) AddImplementation() error {
 			}
 		}
 	}
+	// the interface checks below consult the possible-type table: it must
+	// already know the types added by this call
+	gq.buildPossibleTypeMap()
 
 	// Enforce correct interface implementations
 	for _, ttype := range gq.typeMap {
@@ -209,11 +212,7 @@ func (gq *Schema) AppendType(objectType Type) error {
 		return err
 	}
 	//Now Add interface implementation..
-	if err := gq.AddImplementation(); err != nil {
-		return err
-	}
-	gq.buildPossibleTypeMap()
-	return nil
+	return gq.AddImplementation()
 }
 
 func (gq *Schema) QueryType() *Object {
